@@ -60,7 +60,7 @@ SITES = [
     ("switch-header", "switch (hdr({P})) {{ case 1: a(); break; }}", []),
     ("switch-header-and-cases", "switch (hdr({P})) {{ case 1: op({P}); break; default: op({P}); }}", []),
     ("forever", "forever {{ op({P}); break_loop; }}", []),
-    ("for-init-step-body", "for (init({P}); $i < 3; step({P});) {{ body({P}); }}", []),
+    ("for-init-step-body", "for (first({P}); $i < 3; step({P});) {{ body({P}); }}", []),
     ("while", "while ($i < 2) {{ op({P}); }}", []),
     ("macro-call-arg", "~mac({P}, 1);", ["mac"]),
     ("macro-call-arg-twice-used", "~mac2({P});", ["mac2"]),
@@ -109,7 +109,14 @@ def generate(seed_key: str) -> dict:
     target = rng.randint(1, 4)
     chosen_sites = []
     count = 0
-    pool = list(SITES)
+    # 'nested-macro-body' (a macro with a literal called by another macro of the file) makes compile() loop forever on the
+    # unchanged tree: it is generated for every 40th program only (each costs WATCHDOG_CPU_S of CPU time)
+    index = int(seed_key.rsplit(":", 1)[1]) if seed_key.rsplit(":", 1)[-1].isdigit() else 1
+    pool = [s for s in SITES if s[0] != "nested-macro-body"]
+    if index % 40 == 0:
+        s = next(s for s in SITES if s[0] == "nested-macro-body")
+        chosen_sites.append(s)
+        count += 2
     while count < target:
         s = rng.choice(pool)
         k = s[1].count("{P}") + sum(TOP_DEFS[d].count("{P}") for d in s[2] if d in ("macp", "macq", "outer"))
@@ -255,6 +262,46 @@ def scan_literals(text: str) -> list[dict]:
     return out
 
 
+def _macro_shape(text: str) -> tuple[bool, bool]:
+    """(some macro body contains a macro call, some macro body contains a Position literal) - from the token stream."""
+    r = _repo()
+    L = r.Lexer
+    lx = L(r.InputStream(text))
+    lx.removeErrorListeners()
+    in_macro = False
+    depth = 0
+    call = pos = False
+    while True:
+        t = lx.nextToken()
+        if t.type == r.Token.EOF:
+            break
+        if t.type == L.MACRO:
+            in_macro, depth = True, 0
+        elif in_macro and t.type == L.OPEN_BRACE:
+            depth += 1
+        elif in_macro and t.type == L.CLOSE_BRACE:
+            depth -= 1
+            if depth == 0:
+                in_macro = False
+        elif in_macro and depth > 0 and t.type == L.MACRO_CALL:
+            call = True
+        elif in_macro and depth > 0 and t.type == L.POSITION:
+            pos = True
+    return call, pos
+
+
+FIXED_PROGRAMS = [
+    "macro a() { x(Position<'p', 1, 2>); }\nmacro b() { ~a(); }\n",
+    "macro a() { x(Position<'p', 1, 2>); }\nmacro b() { ~a(); }\ndef 0 { ~b(); }\n",
+    "macro a() { x(); }\nmacro b() { y(Position<'p', 1, 2.5>); ~a(); }\ndef 0 { ~b(); }\n",
+    "macro a() { x(); }\nmacro b() { ~a(); y(Position<'p', 1, 2.5>); }\ndef 0 { ~b(); ~b(); }\n",
+    "def 0 { a(Position<'p', 1, 2>); }",
+    "def 0 { a(Position<'p', 1, 2>, Position<\"q\", -1.5, 0x10>); b(Position<'r',0,0>); }",
+    "def 0 {\n  a(\n    Position<\n      'p',\n      1,\n      2\n    >\n  );\n}\n",
+    "def 0 { switch (h(Position<'p', 1, 2>)) { case 1: a(Position<'q', 3, 4>); } }",
+]
+
+
 def listing(text: str) -> list[dict]:
     r = _repo()
     with _quiet():
@@ -263,10 +310,34 @@ def listing(text: str) -> list[dict]:
              "vals": (m.x_offset, m.y_offset, m.x_relative, m.y_relative)} for m in marks]
 
 
-def compile_fp(text: str) -> dict:
+class CompileTimeout(Exception):
+    """compile() used more CPU time than the watchdog allows (normal: 5-50 ms)."""
+
+
+WATCHDOG_CPU_S = 1.0
+
+
+def _watchdog_compile(text: str):
+    """compile() under a CPU-time watchdog (ITIMER_VIRTUAL: independent of machine load)."""
+    import signal
+
     r = _repo()
-    with _quiet():
-        c = r.Compiler(PPL).compile(text, "/verif-nonexistent/c18.exps")
+
+    def on_alarm(_sig, _frm):
+        raise CompileTimeout()
+
+    old = signal.signal(signal.SIGVTALRM, on_alarm)
+    signal.setitimer(signal.ITIMER_VIRTUAL, WATCHDOG_CPU_S)
+    try:
+        with _quiet():
+            return r.Compiler(PPL).compile(text, "/verif-nonexistent/c18.exps")
+    finally:
+        signal.setitimer(signal.ITIMER_VIRTUAL, 0)
+        signal.signal(signal.SIGVTALRM, old)
+
+
+def compile_fp(text: str) -> dict:
+    c = _watchdog_compile(text)
     ops = []
     for rt in c.routine_ops:
         ops.append([[op.offset, op.op_code.name, [_pk(p) for p in op.params]] for op in rt])
@@ -335,6 +406,14 @@ def check_program(prog: dict, edits_seed: str = "e") -> tuple[int, list[dict], l
         fails.append(_v("C18:listing:not-in-source-order", f"entries are not in source order: {[e['start'] for e in ents]}", inp_base, CONTRACT_L, [e["start"] for e in ents]))
     try:
         fp = compile_fp(text)
+    except CompileTimeout:
+        import gc
+
+        gc.collect()
+        cls = "macro-calls-macro-of-same-file-with-position-marks" if _macro_shape(text) == (True, True) else "other"
+        fails.append(_v(f"C18:compile:does-not-terminate:{cls}", f"compile() of an accepted program does not return within {WATCHDOG_CPU_S} s CPU time (normal: < 0.05 s); "
+                        "the values and replacement clauses cannot be evaluated", inp_base, CONTRACT_V, "CompileTimeout"))
+        return n, fails, selfcheck
     except Exception as e:
         selfcheck.append(f"generated program {prog.get('key')} is rejected by the compiler: {type(e).__name__}: {e}")
         return n, fails, selfcheck
@@ -393,6 +472,8 @@ def check_replacement(text: str, ent: dict, name: str, fp: dict, i: int, cls: st
     inp = dict(inp, edited=new, new_text=new_text)
     try:
         fp2 = compile_fp(new_text)
+    except CompileTimeout:
+        return [_v(f"C18:replacement:compile-does-not-terminate:{cls}", f"literal {i} ({cls}): compile() after the replacement does not return", inp, CONTRACT_R, "CompileTimeout")]
     except Exception as ex:
         return [_v(f"C18:replacement:recompile-fails:{cls}", f"literal {i} ({cls}): text after replacing the reported span does not compile: {type(ex).__name__}: {ex}", inp, CONTRACT_R, f"{type(ex).__name__}: {ex}"[:300])]
     want = _subst(fp, name, new)
@@ -445,7 +526,7 @@ def _dispatch(task):
 
 def run(ctx: Ctx) -> PropResult:
     res = PropResult(prop="C18", level="exploration")
-    n_prog = 12000 if ctx.thorough else 2400
+    n_prog = 30000 if ctx.thorough else 2400
     keys = [f"C18:{ctx.seed}:{i}" for i in range(n_prog)]
     tasks: list[tuple[str, Any]] = [("gen", (keys[i : i + 60], f"e{ctx.seed}")) for i in range(0, len(keys), 60)]
     # seed programs of C16 that contain Position literals with unique names and no import
@@ -454,6 +535,8 @@ def run(ctx: Ctx) -> PropResult:
     for s in C16.seed_programs(ctx):
         if "Position" in s["text"] and "import" not in s["text"]:
             tasks.append(("seed", (dict(s, path="/verif-nonexistent/c18.exps"), f"e{ctx.seed}")))
+    for k, t in enumerate(FIXED_PROGRAMS):
+        tasks.append(("seed", ({"name": f"fixed{k}", "text": t}, f"e{ctx.seed}")))
     mp = multiprocessing.get_context("spawn")
     with mp.Pool(max(1, ctx.jobs)) as pool:
         parts = pool.map(_dispatch, tasks, chunksize=1)
@@ -476,7 +559,7 @@ def run(ctx: Ctx) -> PropResult:
     site_names = sorted({k.split("|")[0] for k in sites})
     res.standins.append(StandIn(
         contract="; ".join([CONTRACT_L, CONTRACT_S, CONTRACT_V, CONTRACT_R]), tier="T3",
-        bound=f"{n_prog} generated programs with 1-4 literals ({lits} literal placements; sites {site_names}; layouts {LAYOUTS}) + the C16 seed programs containing Position literals",
+        bound=f"{n_prog} generated programs with 1-4 literals ({lits} literal placements; sites {site_names}; layouts {LAYOUTS}) + the C16 seed programs containing Position literals + {len(FIXED_PROGRAMS)} fixed programs",
         evaluations=n, distinct_nontrivial=len(hashes), exhaustive=False,
         samples=[generate(keys[0])["text"], generate(keys[1])["text"]],
         notes="evaluations = listing checks + per literal one span, one value and one replacement check. distinct = distinct program texts (sha1); every program holds >= 1 literal. "
@@ -494,6 +577,8 @@ def run(ctx: Ctx) -> PropResult:
     if n == 0:
         res.self_check_failures.append("C18: nothing evaluated")
     for s in SITES:
+        if s[0] in ("macro-body-called-once", "macro-body-called-twice", "nested-macro-body", "macro-call-arg", "macro-call-arg-twice-used"):
+            continue  # these sites hold their literals in the macro definitions (site name 'macro:<name>')
         if not any(k.startswith(s[0] + "|") for k in sites):
             res.self_check_failures.append(f"C18: site {s[0]} never generated")
     return res
